@@ -210,6 +210,9 @@ def c09(ctx):
         for c in v["clause"]:
             if c in ("C11:forward-differs-from-stack", "C11:link-poses-differ-from-stack", "C11:answer-misses-pose"):
                 ctx.violation("C09:shape:%s:%s" % (c.split(":", 1)[1], e.get("ctor")), "shape event #%d %s" % (v["l"], json.dumps(e)[:600]), e)
+            # "each entry point keeps its own contract through the stack (continuation ordering ..)"
+            if c == "C11:not-the-ordered-subsequence" and "continuing" in e.get("entry", ""):
+                ctx.violation("C09:shape:continuation-order-not-the-stacks:%s" % e.get("ctor"), "shape event #%d %s" % (v["l"], json.dumps(e)[:600]), e)
     ctx.evaluations += len(sev)
     ctx.exhaustive = True
     return finish(ctx, rule="every stack of Tool/Frame/Base layers up to depth MaxDepth over the lattice isometries Isos "
